@@ -521,6 +521,27 @@ SELFTEST = [
     {"name": "to_result-while-let", "kind": "benign",
      "edits": [(H, "        for (key, value) in header_map {", "        let mut declared = header_map.into_iter();\n        while let Some((key, value)) = declared.next() {")],
      "why": "behaviour-preserving: for loop written as while-let"},
+    {"name": "found-map-closure", "kind": "benign",
+     "edits": [(H, ") -> Result<HttpResponseFound, HttpError> {\n    let _ = http::HeaderValue::from_str(&location)\n        .map_err(|e| http_redirect_error(e, &location))?;\n    Ok(HttpResponseHeaders::new(\n        HttpResponseFoundStatus,\n        RedirectHeaders { location },\n    ))",
+                ") -> Result<HttpResponseFound, HttpError> {\n    http::HeaderValue::from_str(&location)\n        .map_err(|e| http_redirect_error(e, &location))\n        .map(|_| ())\n        .map(|()| {\n            HttpResponseHeaders::new(\n                HttpResponseFoundStatus,\n                RedirectHeaders { location: location.clone() },\n            )\n        })")],
+     "why": "behaviour-preserving: `check?; Ok(new(..))` written as check.map(|()| new(..)): the response is built inside a closure that Result::map runs only for a valid location"},
+    {"name": "found-map-closure-unvalidated", "kind": "mutant", "expect": ["C12.R6"],
+     "edits": [(H, ") -> Result<HttpResponseFound, HttpError> {\n    let _ = http::HeaderValue::from_str(&location)\n        .map_err(|e| http_redirect_error(e, &location))?;\n    Ok(HttpResponseHeaders::new(\n        HttpResponseFoundStatus,\n        RedirectHeaders { location },\n    ))",
+                ") -> Result<HttpResponseFound, HttpError> {\n    let unchecked: Result<(), HttpError> = Ok(());\n    unchecked.map(|()| {\n        HttpResponseHeaders::new(\n            HttpResponseFoundStatus,\n            RedirectHeaders { location },\n        )\n    })")],
+     "why": "the map-closure idiom without any validation of the location"},
+    {"name": "to_result-try_for_each", "kind": "benign",
+     "edits": [(H, "        for (key, value) in header_map {\n            let key = http::header::HeaderName::try_from(key)\n                .map_err(|e| HttpError::for_internal_error(e.to_string()))?;\n            let value = http::header::HeaderValue::try_from(value)\n                .map_err(|e| HttpError::for_internal_error(e.to_string()))?;\n            headers.insert(key, value);\n        }\n", "        header_map.into_iter().try_for_each(|(key, value)| {\n            let key = http::header::HeaderName::try_from(key)\n                .map_err(|e| HttpError::for_internal_error(e.to_string()))?;\n            let value = http::header::HeaderValue::try_from(value)\n                .map_err(|e| HttpError::for_internal_error(e.to_string()))?;\n            headers.insert(key, value);\n            Ok::<(), HttpError>(())\n        })?;\n")],
+     "why": "behaviour-preserving: for loop over the declared headers written as into_iter().try_for_each(closure)?; the insert sits in a closure, name / value are the closure's items, the header map is a captured borrow"},
+    {"name": "to_result-try_for_each-after-extend", "kind": "mutant", "expect": ["C12.R5"],
+     "edits": [(H, "        for (key, value) in header_map {\n            let key = http::header::HeaderName::try_from(key)\n                .map_err(|e| HttpError::for_internal_error(e.to_string()))?;\n            let value = http::header::HeaderValue::try_from(value)\n                .map_err(|e| HttpError::for_internal_error(e.to_string()))?;\n            headers.insert(key, value);\n        }\n\n        headers.extend(other_headers);\n", "        headers.extend(other_headers);\n        header_map.into_iter().try_for_each(|(key, value)| {\n            let key = http::header::HeaderName::try_from(key)\n                .map_err(|e| HttpError::for_internal_error(e.to_string()))?;\n            let value = http::header::HeaderValue::try_from(value)\n                .map_err(|e| HttpError::for_internal_error(e.to_string()))?;\n            headers.insert(key, value);\n            Ok::<(), HttpError>(())\n        })?;\n")],
+     "why": "declared headers inserted (in the closure idiom) after the explicit ones"},
+    {"name": "json-returns-map_err", "kind": "benign",
+     "edits": [(H, "        Ok(builder\n            .header(http::header::CONTENT_TYPE, CONTENT_TYPE_JSON)\n            .body(serialized.into())?)",
+                "        builder\n            .header(http::header::CONTENT_TYPE, CONTENT_TYPE_JSON)\n            .body(serialized.into())\n            .map_err(HttpError::from)")],
+     "why": "behaviour-preserving: Ok(x?) written as x.map_err(HttpError::from): no explicit Ok(..) site any more"},
+    {"name": "from-ok-let-result", "kind": "benign",
+     "edits": [(H, "        HttpResponseOk::for_object(response.0)", "        let result = HttpResponseOk::for_object(response.0);\n        result")],
+     "why": "behaviour-preserving: tail expression bound to a local first"},
     {"name": "json-to_vec", "kind": "benign",
      "edits": [(H, "        let serialized = serde_json::to_string(&self)", "        let serialized = serde_json::to_vec(&self)")],
      "why": "behaviour-preserving: same JSON bytes via to_vec"},
